@@ -19,15 +19,22 @@ def spec(tier):
     for c in CHAINS_Q:
         hs.append(Harness(c, timeout=cap, optional_covers=("something filtered out",) if c in NOFILTER else (),
                           note="adapter chain %s over an iterator source, symbolic items/fault positions/driving mode" % c[10:]))
+    for c in ("c15_chunky_f", "c15_chunky_m", "c15_chunky_fm"):
+        hs.append(Harness(c, timeout=cap, optional_covers=("something filtered out",) if c.endswith("_m") else (),
+                          note="multi-item-per-step source (fault possibly mid-step) through one adapter"))
+    for c in ("c15_into_iter_m", "c15_into_iter_fm"):
+        hs.append(Harness(c, timeout=max(cap, 600), optional_covers=("sink fault", "something filtered out") if c.endswith("_m") else ("sink fault",),
+                          note="IntoIterator of map_items/filter_map_items over a multi-item-per-step source"))
     hs.append(Harness("c15_for_each_item", timeout=cap, optional_covers=("sink fault",), note="for_each_item/for_some_item (infallible sink)"))
     hs.append(Harness("c15_stream_error_plumbing", timeout=cap, note="StreamError map_source/map_sink/reverse/inner_into"))
     return kprop.KSpec(
         package="sophia_api", crate_dir="api",
         harness_files={"api": [os.path.join(H, "api", "c15_stream.rs")]},
-        harnesses=hs, jobs=8,
+        harnesses=hs, jobs=8, vecdeque=True,
         encoded=["sophia_api::source::Source::{try_for_some_item (iterator impl), try_for_each_item, for_some_item, for_each_item}",
                  "source::filter::FilterSource", "source::map::MapSource", "source::filter_map::FilterMapSource",
-                 "source::StreamError::{map_source,map_sink,reverse,inner_into,is_*}", "StreamResultExt"],
+                 "source::StreamError::{map_source,map_sink,reverse,inner_into,is_*}", "StreamResultExt",
+                 "source::map::MapSourceIterator, source::filter_map::FilterMapSourceIterator (IntoIterator)"],
         bounds=["n <= 4 items, all u8 payloads", "source-fault index in 0..=4, sink-fault call index in 0..=5, both error payloads symbolic",
                 "all 3 chains of depth 1, all 9 of depth 2, 3 of depth 3; whole-stream and step-wise driving", "loop unwind 8 (unwinding assertions on)"],
         outside=["real parsers as sources and real io::Error kinds", "sequences longer than 4"],
@@ -35,9 +42,34 @@ def spec(tier):
     )
 
 
+def spec_inmem(tier):
+    cap = 300 if tier == "quick" else 2700
+    names = ["c15_fg_insert_all_p", "c15_fg_insert_all_o", "c15_fg_insert_all_s", "c15_lg_insert_all", "c15_ld_insert_all"]
+    if tier == "thorough":
+        names += ["c15_fd_insert_all_o", "c15_fd_insert_all_pg"]
+    US = [(r"Iterator>::any::<", 3, "loops?"), (r"__ordset::cmp::<", 5, "loops?")]
+    hs = [Harness(n, unwind=4, unwindset=US, timeout=cap, mem_gb=14,
+                  note="insert_all of 2 symbolic items with a source fault or an index-full sink fault at a symbolic position; content checked through a secondary index") for n in names]
+    HI = os.path.join(H, "inmem")
+    return kprop.KSpec(
+        package="sophia_inmem", crate_dir="inmem",
+        harness_files={"inmem": [os.path.join(HI, "vt.rs"), os.path.join(HI, "c01_store.rs"), os.path.join(HI, "c15_insert_all.rs")]},
+        harnesses=hs, ordset=True, ordset_cap=2, jobs=5,
+        encoded=["MutableGraph::insert_all / MutableDataset::insert_all as seen through Generic{Fast,Light}{Graph,Dataset} (default method or override)",
+                 "sophia_inmem insert paths and secondary indexes after a faulted bulk insertion"],
+        bounds=["2 symbolic triples/quads, source fault index in 0..=2, refused term code symbolic (index full)", "ordered-set model capacity 2"],
+        outside=["remove_all / remove_matching / retain_matching on the real stores"],
+        assumptions=["std BTreeSet replaced by an ordered-set model", "VT/VTI harness term and term-index types"],
+    )
+
+
 def run(ctx):
     kprop.run(ctx, spec(ctx.tier))
+    kprop.run(ctx, spec_inmem(ctx.tier))
 
 
 def replay(ctx, path):
-    return kprop.replay(ctx, spec(ctx.tier), path)
+    import json
+    w = json.load(open(path))
+    sp = spec_inmem(ctx.tier) if "c15_insert_all" in w.get("harness", "") else spec(ctx.tier)
+    return kprop.replay(ctx, sp, path)
